@@ -308,7 +308,54 @@ def _slice_get(self, args):
     return ("agg", "adt", "std::option::Option", "None", (), 0)
 
 
+def _cf(variant, payload):
+    return ("agg", "adt", "std::ops::ControlFlow", variant, (payload,), 0 if variant == "Continue" else 1)
+
+
+def _try_branch(self, args):
+    a = args[0]
+    if a[0] == "agg" and a[1] == "adt" and a[3] in ("Some", "Ok"):
+        return _cf("Continue", a[4][0])
+    if a[0] == "agg" and a[1] == "adt" and a[3] in ("None", "Err"):
+        return _cf("Break", a)
+    raise Unknown("Try::branch of a non-constant value")
+
+
+def _from_residual(self, args):
+    a = args[0]
+    if a[0] == "agg" and a[1] == "adt" and a[3] in ("None", "Err"):
+        return a
+    raise Unknown("from_residual of a non-constant value")
+
+
+def _result_ok(self, args):
+    a = args[0]
+    if a[0] == "agg" and a[1] == "adt" and a[3] == "Ok":
+        return ("agg", "adt", "std::option::Option", "Some", (a[4][0],), 1)
+    if a[0] == "agg" and a[1] == "adt" and a[3] == "Err":
+        return ("agg", "adt", "std::option::Option", "None", (), 0)
+    raise Unknown("Result::ok of a non-constant value")
+
+
+_INT_RANGES = {"u8": (0, 255), "u16": (0, 65535), "u32": (0, (1 << 32) - 1), "u64": (0, (1 << 64) - 1), "usize": (0, (1 << 64) - 1),
+               "i8": (-128, 127), "i16": (-32768, 32767), "i32": (-(1 << 31), (1 << 31) - 1), "i64": (-(1 << 63), (1 << 63) - 1), "isize": (-(1 << 63), (1 << 63) - 1)}
+
+
+def _try_from_int(target):
+    def f(self, args):
+        v = _ints(args[:1])[0]
+        lo, hi = _INT_RANGES[target]
+        if lo <= v <= hi:
+            return ("agg", "adt", "std::result::Result", "Ok", (_c(v),), 0)
+        return ("agg", "adt", "std::result::Result", "Err", (("const", "TryFromIntError"),), 1)
+    return f
+
+
 STD_MODELS = {
+    "std::result::Result::<T, E>::ok": _result_ok,
+    "<std::option::Option<T> as std::ops::Try>::branch": _try_branch,
+    "<std::result::Result<T, E> as std::ops::Try>::branch": _try_branch,
+    "<std::option::Option<T> as std::ops::FromResidual<std::option::Option<std::convert::Infallible>>>::from_residual": _from_residual,
     "core::slice::<impl [T]>::len": _slice_len,
     "core::slice::<impl [T]>::is_empty": _slice_is_empty,
     "core::slice::<impl [T]>::get": _slice_get,
@@ -333,6 +380,12 @@ for _b in (8, 16, 32, 64):
         STD_MODELS[_p + "checked_add"] = (lambda ty: lambda self, args: _checked(lambda a, b: a + b)(self, args, ty))(_t)
         STD_MODELS[_p + "checked_sub"] = (lambda ty: lambda self, args: _checked(lambda a, b: a - b)(self, args, ty))(_t)
         STD_MODELS[_p + "checked_mul"] = (lambda ty: lambda self, args: _checked(lambda a, b: a * b)(self, args, ty))(_t)
+
+
+for _a in _INT_RANGES:
+    for _b in _INT_RANGES:
+        if _a != _b:
+            STD_MODELS["std::convert::num::<impl std::convert::TryFrom<%s> for %s>::try_from" % (_a, _b)] = _try_from_int(_b)
 
 
 def show(v):
